@@ -36,9 +36,14 @@ def keys_of(e, clauses):
         return ["C14:panic:%s:%s" % (fam, e.get("where", "?"))]
     n = e.get("n", 0)
     out = []
-    for c in clauses or ["unjudged"]:
+    clauses = list(clauses or ["unjudged"])
+    if "extract" in clauses:          # the body is not the prescribed layout: what the library's decoders make of it is a consequence
+        clauses = [c for c in clauses if c not in ("lib:decode", "lib:extract")]
+    for c in clauses:
         if fam == "highload" and n == 0 and c in ("extract", "lib:decode", "lib:extract"):
             key = "C14:highload:zero_messages"
+        elif e.get("xreq"):            # wallet v5r1 with extended actions, built through CreateSignedMsgBodyCell (Body and Send alike)
+            key = "C14:%s:%s:xactions:%s" % (fam, e.get("via", k), c)
         else:
             key = "C14:%s:%s:%s:%s" % (fam, k, c, nclass(fam, n) if fam in MAXN else "?")
         if key not in out:
@@ -70,11 +75,13 @@ def gen_vectors(ck):
     ncls = 1
     for name in ("SeqClasses", "ExpClasses", "ModeClasses"):
         ncls *= txt.split(name)[1].split("}")[0].count('"') // 2
-    want = 7 * 5 * ncls
+    want = 7 * 5 * ncls + 3 * 8 * 2                  # + XCases: n {0,1,3} x 8 extended-action lists x {ext, int}
     if len(vecs) != want or len({json.dumps({k: x for k, x in v.items() if k != "vec"}, sort_keys=True) for v in vecs}) != want:
         raise Infra("WalletMsg_Gen emitted %d cases, expected %d distinct" % (len(vecs), want))
     if {v["exp"] for v in vecs} != {"ok", "refused"} or {v["ver"] for v in vecs} != set(FAMILY):
         raise Infra("WalletMsg_Gen is vacuous: outcomes %s" % {v["exp"] for v in vecs})
+    if sum(1 for v in vecs if v.get("via") == "x" and v.get("ext")) != 42:
+        raise Infra("WalletMsg_Gen: the extended-action cases are missing")
     return vecs
 
 
@@ -171,6 +178,7 @@ def run(ck):
     v5b_total = 0
     fixtures = 0
     nflips = 0
+    xaccepted, xrecorded, recorded_by_ver = 0, 0, {}
     all_rejected = []
     v5rev_total = 0
     for i, (tp, (rejected, (v5b, v5rev))) in enumerate(zip(traces, results)):
@@ -183,6 +191,11 @@ def run(ck):
             if k == "End":
                 continue
             kinds[k] = kinds.get(k, 0) + 1
+            if k in ("Body", "Send") and e.get("xreq"):
+                xrecorded += 1
+                xaccepted += ln not in bad_lines
+            if k in ("Body", "Send"):
+                recorded_by_ver[e["ver"]] = recorded_by_ver.get(e["ver"], 0) + 1
             if k in ("Body", "Send"):
                 distinct.add((e["ver"], e["n"], e["seqno"], e["vu"], e["pk"], k))
                 nontrivial += e["n"] > 0
@@ -212,7 +225,8 @@ def run(ck):
             if k == "Panic":
                 what = "panic in %s: %s" % (e.get("where"), e.get("panic"))
             ck.report(key, what + " [failing input: %s n=%s seqno=%s valid_until=%s via %s]" % (e.get("ver"), e.get("n"), e.get("seqno"), e.get("vu"),
-                                                                                       "CreateMessageBody" if k == "Body" else "RawSend"),
+                                                                                       e.get("via") or ("CreateMessageBody" if k == "Body" else "RawSend")) + (
+                      " extended actions %s" % [x["kind"] for x in e["xreq"]] if e.get("xreq") else ""),
                       dict(origin, clauses=clauses, event=slim(e)))
     # vacuity: every TLC case came back, every kind of event was recorded, every version has accepted events
     if vec_seen != set(range(len(vecs))):
@@ -222,8 +236,11 @@ def run(ck):
             raise Infra("no %s events were recorded" % k)
     if fixtures < 6:
         raise Infra("only %d captured fixtures found in wallet/*_test.go" % fixtures)
-    if set(accepted_by_ver) != set(FAMILY):
-        raise Infra("no accepted event for versions %s" % (set(FAMILY) - set(accepted_by_ver)))
+    if not xrecorded:
+        raise Infra("no event with wallet v5 extended actions was recorded")
+    ck.extra["v5r1_extended_action_events_accepted"] = xaccepted
+    if set(recorded_by_ver) != set(FAMILY):           # (a version whose every event is rejected is a verdict, not vacuity)
+        raise Infra("no event recorded for versions %s" % (set(FAMILY) - set(recorded_by_ver)))
     ck.extra.update({"events_by_kind": kinds, "generated_cases": len(vecs), "fixtures_accepted": fixtures,
                      "note_v5beta_verifysignature_unsupported": v5b_total, "note_v5_outlist_reversed": v5rev_total,
                      "accepted_by_version": accepted_by_ver})
@@ -275,18 +292,25 @@ def canaries(ck, traces):
     c8 = copy.deepcopy(over); c8["err"] = ""; c8["sent"] = 1                                                   # over-limit send went through
     c9 = copy.deepcopy(flips); c9["flips"][3]["lib"] = "ok"                                                    # library accepted a changed body
     c10 = copy.deepcopy(send); c10["vu"] = str((int(c10["vu"]) + 2 ** 31) % 2 ** 32)                           # another expiry requested
+    bodyx = pick(lambda e: e["k"] == "Body" and len(e["xreq"]) >= 2 and e["err"] == "" and dj(e["xreq"][0]) != dj(e["xreq"][1]), "Body with >= 2 extended actions")
+    sendx = pick(lambda e: e["k"] == "Send" and len(e["xreq"]) >= 1 and e["err"] == "" and e["xreq"][0]["kind"] != "sigauth", "Send with an extension address")
+    c14_ = copy.deepcopy(bodyx); c14_["xreq"][0], c14_["xreq"][1] = c14_["xreq"][1], c14_["xreq"][0]          # two extended actions swapped
+    c15 = copy.deepcopy(sendx); c15["xreq"][0]["kind"] = "remove" if c15["xreq"][0]["kind"] == "add" else "add"   # add <-> remove extension
+    c16 = copy.deepcopy(sendx); c16["lib"]["xacts"] = c16["lib"]["xacts"][1:]                                  # library decoder lost the first extended action
+    c17 = copy.deepcopy(sendx); a = c17["xreq"][0]["addr"]; c17["xreq"][0]["addr"] = a[:-1] + ("0" if a[-1] != "0" else "1")   # another extension address
     c11 = copy.deepcopy(body5); c11["req"][0], c11["req"][1] = c11["req"][1], c11["req"][0]                    # v5: two of >= 3 messages swapped
     c12 = copy.deepcopy(send5); c12["modes"][0], c12["modes"][1] = c12["modes"][1], c12["modes"][0]            # v5: modes detached from their messages
     c13 = copy.deepcopy(send5); c13["lib"]["xmodes"].reverse(); c13["lib"]["xrows"].reverse()                  # v5: library decoder returned the reverse
-    cs = [c1, c2, c3, c4, c5, c6, c7, c8, c9, c10, c11, c12, c13]
+    cs = [c1, c2, c3, c4, c5, c6, c7, c8, c9, c10, c11, c12, c13, c14_, c15, c16, c17]
     p = os.path.join(ck.work, "canary.ndjson")
-    vlib.write_ndjson(p, cs + [body, send, over, flips, body5, send5, {"k": "End"}])
+    vlib.write_ndjson(p, cs + [body, send, over, flips, body5, send5, bodyx, sendx, {"k": "End"}])
     rejected, _ = judge(ck, p, "canary", account=False)
     got = {ln: cl for ln, _, cl in rejected}
     names = ["signature bit changed", "requested messages swapped", "requested seqno changed", "requested amount changed", "requested mode changed",
              "keys exchanged", "library verdict for the second key = ok", "over-limit send not refused", "library accepted a flipped body",
              "requested expiry changed", "v5: two messages of a >= 3 message list swapped", "v5: modes swapped between two messages",
-             "v5: library decoder returns the reversed list"]
+             "v5: library decoder returns the reversed list", "v5r1: two extended actions swapped", "v5r1: add / remove extension exchanged",
+             "v5r1: library decoder lost an extended action", "v5r1: extension address changed"]
     for i, nm in enumerate(names, 1):
         ck.canary("C->S: " + nm, i in got)
     ck.canary("C->S: the unmodified events are accepted", all(ln <= len(cs) for ln in got))
